@@ -112,3 +112,8 @@ CORPUS += [
       "    scalers = []\n    post_indexing.sort(key=lambda row: row[0])\n    for node, left, right in post_indexing:\n        partial = (mats[..., left, :, :, :] @ partials[left]) * (",
       expect=[('C02.W', 'calculate_treelikelihood_discrete_rescaled::the-traversal-it-is-given-is-left-as-it-is')]),
 ]
+CORPUS += [
+    T('c02-missing-data-test-forgets-the-lower-case-symbols', DT, "        if not use_ambiguities and string not in 'ACGTUacgtu':", "        if not use_ambiguities and string not in NucleotideDataType.NUCLEOTIDES[:5]:",
+      expect=[('C02.M', 'NucleotideDataType::all-128-symbols-agree')]),
+    T('c02-benign-missing-data-test-from-two-literals', DT, "        if not use_ambiguities and string not in 'ACGTUacgtu':", "        if not use_ambiguities and string not in ('ACGTU' + 'acgtu')[:10]:", benign=True),
+]
